@@ -104,7 +104,8 @@ def grammar_snapshot(g):
     gengy = []
     for c in sorted(g.all_nodes, key=tname):
         d = get_gengy(c) if c.__module__ != "builtins" else {}
-        gengy.append((tname(c), tuple(sorted((k, repr(v)) for k, v in d.items()))))
+        # only what the property names (production weights, abstractness): other keys may be caches
+        gengy.append((tname(c), tuple(sorted((k, repr(v)) for k, v in d.items() if k in ("weight", "abstract")))))
     return {
         "start": tname(g.starting_symbol),
         "alternatives": tuple((tname(k), names(v)) for k, v in g.alternatives.items()),
